@@ -131,7 +131,22 @@ def _search_boxed(here, out):
     return None, (p.stdout.strip()[-300:])
 
 
-SEARCHERS = {"state_tree": lambda here, out: _search_state_tree(here, out, 4), "ffi_serde": _search_ffi, "parser": _search_parser, "privacy": _search_privacy, "sched": _search_sched, "boxed": _search_boxed}
+def _search_cst(here, out):
+    exe, err = _build("ffi_serde", here, out)
+    if exe is None:
+        return None, "replay harness does not build against the current tree: " + err[-400:]
+    try:
+        p = subprocess.run([exe, "cst-search"], capture_output=True, text=True, timeout=900)
+    except subprocess.TimeoutExpired:
+        return None, "replay search timeout"
+    m = re.search(r"FOUND src=(\".*?\") clause=(.*) tried=(\d+)", p.stdout)
+    if m:
+        src = json.loads(m.group(1)) if _is_json_str(m.group(1)) else m.group(1).strip('"')
+        return {"cmd": ["ffi_replay", "cst-run", src], "src": src, "clause": m.group(2)}, ""
+    return None, p.stdout.strip()[-300:]
+
+
+SEARCHERS = {"state_tree": lambda here, out: _search_state_tree(here, out, 4), "ffi_serde": _search_ffi, "parser": _search_parser, "privacy": _search_privacy, "sched": _search_sched, "boxed": _search_boxed, "cst": _search_cst}
 TOOLS = {"st_replay": "state_tree", "ffi_replay": "ffi_serde", "parser_replay": "parser"}
 
 
@@ -163,6 +178,21 @@ def search(prop, cfg, r, here, out, why=""):
     payload = {"property": prop, "unit": r.unit,
                "obligation": f"{found['clause']} (proof annotations lost: {why})",
                "verifier": "verus (unit undecided) + replay on the real crate", "failing_input": found}
+    path = _write(prop, out, payload)
+    return {"line": f"VIOLATION property={prop} replay={path}", "payload": payload}
+
+
+def search_frame(prop, fcfg, fr, here, out, why=""):
+    """a broken frame condition alone is undecided; a concrete failing input makes it a violation"""
+    if fcfg.get("searcher") not in SEARCHERS:
+        return None
+    found, note = SEARCHERS[fcfg["searcher"]](here, out)
+    if not found:
+        return None
+    payload = {"property": prop, "unit": "frame:" + fr["name"],
+               "obligation": f"{found['clause']} ({why})", "frame_sites": fr["sites"][:10],
+               "verifier": "vx frame scan (assumed contract's frame condition broken) + replay on the real crate",
+               "failing_input": found}
     path = _write(prop, out, payload)
     return {"line": f"VIOLATION property={prop} replay={path}", "payload": payload}
 
